@@ -92,7 +92,7 @@ pub fn fees_u(f: &[Uint128; 3]) -> [u128; 3] {
 
 impl PairWorld {
     pub fn build(cfg: &PairCfg) -> Result<PairWorld, String> {
-        let mut w = World::new_with_fund(&USERS, &["uaaa", "ubbb", "uccc"], USER_FUND);
+        let mut w = World::new_with_fund(&USERS, &["uaaa", "uaaab", "uccc"], USER_FUND);
         w.setup_pool_network();
         w.add_account("collector-two");
         w.add_account("collector-three");
@@ -102,7 +102,7 @@ impl PairWorld {
                 let t = w.create_cw20_with_fund(&format!("tok{}", ["a", "b"][i]), cfg.decimals[i], USER_FUND);
                 infos.push(token(&t));
             } else {
-                let d = ["uaaa", "ubbb"][i];
+                let d = ["uaaa", "uaaab"][i];
                 w.register_native_decimals(d, cfg.decimals[i]);
                 infos.push(native(d));
             }
